@@ -144,6 +144,12 @@ func IntFromString(str string, base int) (Object, error) {
 		convertBase = 10
 	}
 
+	// No sign is allowed after the base prefix (the conversions
+	// below would accept one)
+	if s[0] == '+' || s[0] == '-' {
+		goto error
+	}
+
 	// Detect leading zeros which Python doesn't allow using base 0
 	// on decimal numbers other than zero ("0x01" and "00" are fine)
 	if base == 0 && !sigil {
